@@ -38,6 +38,9 @@ pub fn universe(full: bool) -> Vec<Arg> {
     let mut bounds: Vec<(&str, &str)> = vec![("0", "0"), ("0", "1"), ("1", "1"), ("-1", "0"), ("-1", "-1"), ("0", two128m1), ("0", P_MINUS_1), ("5", "2")];
     if full { bounds.push(("0", "255")); }
     if full { bounds.extend([("-1", "1"), ("0", two128), ("-170141183460469231731687303715884105728", "170141183460469231731687303715884105727"), ("79228162514264337593543950336", "79228162514264337593543950336"), ("1", P_MINUS_1), ("0", P), ("-128", "127"), ("2", "2")]); }
+    // ranges of exactly 2^128 values next to the u128 range: the downcast builders treat a bound of 2^128 specially (F13, F25)
+    let two129 = "680564733841876926926749214863536422912";
+    bounds.extend([("1", two128), ("2", two128m1), (two128, two129)]);
     let mut bis = vec![];
     for (k, (lo, hi)) in bounds.iter().enumerate() { let b = comp(&format!("BI{k}"), "BoundedInt", &[lo, hi], &[], &[]); bis.push(b.clone()); u.push(b); }
     // wrappers
